@@ -469,12 +469,12 @@ func fileLinesIter(L *LState) int {
 	} else {
 		file = L.Get(UpvalueIndex(2)).(*LUserData).Value.(*lFile)
 	}
-	buf, _, err := file.reader.ReadLine()
+	buf, err, iseof := readBufioLine(file.reader)
+	if iseof {
+		L.Push(LNil)
+		return 1
+	}
 	if err != nil {
-		if err == io.EOF {
-			L.Push(LNil)
-			return 1
-		}
 		L.RaiseError(err.Error())
 	}
 	L.Push(LString(string(buf)))
@@ -584,15 +584,15 @@ func ioLinesIter(L *LState) int {
 		file = L.Get(UpvalueIndex(2)).(*LUserData).Value.(*lFile)
 		toclose = true
 	}
-	buf, _, err := file.reader.ReadLine()
-	if err != nil {
-		if err == io.EOF {
-			if toclose {
-				fileCloseAux(L, file)
-			}
-			L.Push(LNil)
-			return 1
+	buf, err, iseof := readBufioLine(file.reader)
+	if iseof {
+		if toclose {
+			fileCloseAux(L, file)
 		}
+		L.Push(LNil)
+		return 1
+	}
+	if err != nil {
 		L.RaiseError(err.Error())
 	}
 	L.Push(LString(string(buf)))
